@@ -98,6 +98,12 @@ func (exec *Executor) execArrayIndex(
 					break
 				}
 			}
+
+			// Stop at the first failure (or the first hit when only
+			// existence is asked): the next subscript must not overwrite it.
+			if res.failed() || (res == statusOK && found == nil) {
+				break
+			}
 		}
 
 		return res, resErr
